@@ -7,6 +7,7 @@ import Dashu.Proofs.Mem.PowLen
 import Dashu.Model.Mem.Arith2
 import Dashu.Model.Mem.Arith3
 import Dashu.Proofs.Mem.Arith4
+import Dashu.Proofs.Mem.Arith5
 import Dashu.Gen.Scratch
 /-
   C17 — The hand-managed integer storage is memory-safe and keeps its invariants  (PARTIAL).
@@ -925,6 +926,36 @@ theorem skeleton_ops_ok_round5 (W mx sq : Nat) (f : Form) (byVal na : Bool) (a b
 -- `!(2^128 - 1) = -(2^128)` by value on an inline value: the carry leaves the inline form (a 3-word buffer is allocated)
 example : (fragNot 64 true false [2 ^ 64 - 1, 2 ^ 64 - 1]).ops =
     [.intoSignTyped 0, .allocate 2 3, .push 2 0, .push 2 0, .push 2 1, .fromBuffer 2, .withSign 2 true] := by decide +kernel
+
+/-- round 6 (`Model/Mem/Arith5.lean`): `IBig`'s Euclidean division family — `div_euclid`, `rem_euclid`, `div_rem_euclid` of
+    `IBig` in all four ownership forms and all sign pairs (div_ops.rs `impl_ibig_div_euclid / rem_euclid / divrem_euclid`: the
+    `UBig` `div_rem` / `%` skeleton on the magnitudes, with the divisor only borrowed when the dividend is negative; then, for a
+    non-zero remainder, `q.into_typed().add_one()` in the quotient's own buffer and the by-value subtraction
+    `mag1 - r.into_typed()`; the unused remainder / by-value divisor dropped at the end of the block) are histories over the
+    proved alphabet, so `arithmetic_histories_keep_invariant` covers them, whatever the kernels write -/
+theorem skeleton_ops_ok_round6 (W mx : Nat) (f : Form) (na nb : Bool) (a b : List Nat) :
+    (∀ op ∈ ((fragSignedDivEuclid W f na a nb b).ops ++ (fragSignedDivEuclid W f na a nb b).cleanup).map AOp.toOp, op.Ok mx) ∧
+    (∀ op ∈ ((fragSignedRemEuclid W f na a b).ops ++ (fragSignedRemEuclid W f na a b).cleanup).map AOp.toOp, op.Ok mx) ∧
+    (∀ op ∈ ((fragSignedDivRemEuclid W f na a nb b).ops ++ (fragSignedDivRemEuclid W f na a nb b).cleanup).map AOp.toOp,
+      op.Ok mx) :=
+  ⟨AOp.map_ok mx _, AOp.map_ok mx _, AOp.map_ok mx _⟩
+
+-- `(-(2^128 - 1) * 3 - 1).div_rem_euclid(&3)` by value / by reference: q = 2^128 - 1 is inline, `add_one` leaves the inline form
+-- (3-word buffer, register 6), the remainder 3 - 1 = 2 is a fresh inline value (register 5)
+example : ((fragSignedDivRemEuclid 64 .vr true (toWords 64 3 ((2 ^ 128 - 1) * 3 + 1)) false [3]).res,
+           (fragSignedDivRemEuclid 64 .vr true (toWords 64 3 ((2 ^ 128 - 1) * 3 + 1)) false [3]).res2) = (6, some 5) := by
+  decide +kernel
+
+/-- the by-value subtraction `mag1 - r.into_typed()` of the Euclidean fix-up never reaches `panic_negative_ubig`: for a
+    divisor stored with the length of its value (what `Repr::from_buffer` guarantees) and every `rm ≤ |b|` (the fix-up runs
+    with `0 < rm < |b|`) the `UBig - UBig` skeleton it runs has no panic arm — in the by-value and the borrowed-divisor form -/
+theorem euclid_fix_sub_no_panic (W : Nat) (bVal : Bool) (b : List Nat) (rm : Nat)
+    (hb : b.length = wordLen W (wval W b)) (hrm : rm ≤ wval W b) :
+    (fragSub W (if bVal then .vv else .rv) b (trimmed W rm)).panic = none :=
+  Dashu.Proofs.Mem.euclid_fix_sub_no_panic W bVal b rm hb hrm
+
+-- non-vacuity: a 3-word divisor with the length of its value, remainder 2^64 (two words)
+example : [5, 6, 7].length = wordLen 64 (wval 64 [5, 6, 7]) ∧ 2 ^ 64 ≤ wval 64 [5, 6, 7] := by decide +kernel
 
 /-- the flag-tracking Lehmer loop of the gcd skeleton has, as its value, C12's mirrored `lehmerGcdLoop` — for every fuel,
     operands and initial flag (the flag is the only thing C17 adds to C12's kernel) -/
